@@ -463,6 +463,8 @@ MempoolSim::MempoolSim(MempoolSimOpts o) : opts(o)
     co.extra_args = o.extra_args;
     co.with_mempool_checks = o.with_mempool_checks;
     co.coins_cache_bytes = o.coins_cache_bytes;
+    co.min_validation_cache = o.min_validation_cache;
+    if (o.validation_cache_bytes) co.validation_cache_bytes = *o.validation_cache_bytes;
     m_sim = std::make_unique<ChainSim>(co);
     ChainSim& sim = *m_sim;
     if (o.tweak_mempool) {
